@@ -44,8 +44,10 @@ PURE = {
     "std::slice::as_mut_ptr": "as_ptr",
     "std::array::as_slice": "as_slice",
     "std::slice::get": "slice_get",
+    "std::slice::get_mut": "slice_get",
     "std::slice::is_empty": "is_empty",
     "std::vec::Vec::is_empty": "is_empty",
+    "std::ops::Range::is_empty": "range_is_empty",
     "std::slice::iter": "slice_iter",
     "std::convert::Into::into": "into",
     "std::convert::From::from": "from",
@@ -190,6 +192,21 @@ def mk_deref(t):
     return ("deref", t)
 
 
+def mk_bin(op, a, b):
+    """binary term, with `L - min(c, L)` written as the std function it spells out: saturating_sub(L, c)"""
+    if op == "Sub":
+        bb = b
+        while bb[0] == "ref":
+            bb = bb[1]
+        if bb[0] == "call" and bb[1] == "min" and len(bb[2]) == 2:
+            x, y = bb[2]
+            if x == a:
+                return ("call", "saturating_sub", (a, y))
+            if y == a:
+                return ("call", "saturating_sub", (a, x))
+    return ("bin", op, a, b)
+
+
 def mk_field(t, idx, name, adt=None):
     if t[0] == "agg" and idx < len(t[2]) and not t[1].startswith("rawptr"):
         return t[2][idx]
@@ -198,7 +215,7 @@ def mk_field(t, idx, name, adt=None):
     if t[0] == "bin" and t[1].endswith("WithOverflow"):
         base = t[1][: -len("WithOverflow")]
         if idx == 0:
-            return ("bin", base, t[2], t[3])
+            return mk_bin(base, t[2], t[3])
         return ("ovf", base, t[2], t[3])
     if t[0] == "variant":
         # payload of an enum variant
@@ -558,7 +575,7 @@ class Evaluator:
                 return a
             return ("cast", ck, a)
         if k == "binop":
-            return ("bin", r["op"], self.operand(ctx, r["a"]), self.operand(ctx, r["b"]))
+            return mk_bin(r["op"], self.operand(ctx, r["a"]), self.operand(ctx, r["b"]))
         if k == "unop":
             return ("un", r["op"], self.operand(ctx, r["a"]))
         if k == "discr":
@@ -681,9 +698,28 @@ class Evaluator:
         if model == "Option::unwrap_or" and len(args) == 2 and args[1] == ("int", 0) and args[0][0] == "call" \
                 and args[0][1] == "checked_sub" and len(args[0][2]) == 2:
             return ("call", "saturating_sub", args[0][2])  # a.checked_sub(b).unwrap_or(0)
+        if model == "Option::unwrap_or" and len(args) == 2 and args[0][0] == "call" and len(args[0][2]) == 2 \
+                and args[0][1] in ("bool::then", "bool::then_some"):
+            # cond.then(|| v).unwrap_or(d): one of the two values
+            v = args[0][2][1] if args[0][1] == "bool::then_some" else self.closure_ret(ctx, args[0][2][1], [])
+            return mk_phi([args[1], v])
         if model == "is_empty" and args:
             return ("call", "eq", (("call", "len", (args[0],)), ("int", 0)))
+        if model == "range_is_empty" and args:
+            r = args[0]
+            while r[0] == "ref":
+                r = r[1]
+            if r[0] == "agg" and r[1].endswith("Range::Range") and len(r[2]) == 2:
+                return ("call", "ge", (r[2][0], r[2][1]))  # `s..e` is empty exactly when s >= e
+            return ("call", "range_is_empty", args)
         if model == "into" or model == "from":
+            a0 = args[0] if args else None
+            if a0 is not None and a0[0] == "call" and a0[1] == "add" and len(a0[2]) == 2:
+                # Into<usize>(start + Idx::from(p)) = p + Into<usize>(start): the index type is used as an integer (the
+                # overflow of the generic addition is an OVF site of its own, judged on the MIR call)
+                x, y = a0[2]
+                if y[0] == "call" and y[1] == "conv" and y[2]:
+                    return ("bin", "Add", y[2][0], ("call", "conv", (x,)))
             return ("call", "conv", args[:1])
         if model == "Try::branch":
             st = (c.self_ty or {}).get("s", "")
